@@ -38,6 +38,17 @@ type Directory struct {
 
 // Return the offset of the zip central directory
 func FindDirectory(r io.ReaderAt, size int64) (int64, error) {
+	// A signed XAP carries its signature and a 10-byte trailer ("XapS", a
+	// 16-bit field, the signature size) after the end of directory record;
+	// step over them.
+	if size > 10 {
+		var tr [10]byte
+		if _, err := r.ReadAt(tr[:], size-10); err == nil && binary.LittleEndian.Uint32(tr[:]) == 0x53706158 {
+			if skip := int64(binary.LittleEndian.Uint32(tr[6:])) + 10; skip < size {
+				size -= skip
+			}
+		}
+	}
 	pos := size - directoryEndLen - directory64LocLen
 	var endb [directoryEndLen + directory64LocLen]byte
 	if _, err := r.ReadAt(endb[:], pos); err != nil {
